@@ -2635,12 +2635,13 @@ class RedunBackendDb(RedunBackend):
         """
         assert self.session
 
-        # Gather all valid handles of the same name and their children ids
+        # Gather all handles of the same name (valid or not, since a valid descendant may only
+        # be reachable through an already invalidated handle) and their children ids
         # in order or perform the recursive search more efficiently in python.
         handles_same_name = (
             self.session.query(Handle.hash, HandleEdge.child_id)
             .join(HandleEdge, HandleEdge.parent_id == Handle.hash)
-            .filter(Handle.fullname == handle.__handle__.fullname, Handle.is_valid.is_(True))
+            .filter(Handle.fullname == handle.__handle__.fullname)
             .all()
         )
 
